@@ -245,7 +245,10 @@ def run(prop, tier, seed, replay=None):
 
     # 2. Lean: build the theorems and the driver
     chunks = ["GivaroModel.Generated.IntegerThms%02d" % i for i in range(meta["nchunk"])]
+    props_mod = "GivaroModel.Props.%s" % prop
     ok, out, t_lean = common.lake_build(chunks + ["driver"])
+    ok_p, out_p, t_p = common.lake_build([props_mod]) if ok else (False, "generated theorems failed; %s not built" % props_mod, 0)
+    t_lean += t_p
     failing, other = failing_theorems(out)
     bad_chunks = {int(m.group(1)) for m in re.finditer(r"IntegerThms(\d\d)\.lean:\d+:\d+", out)} if not ok else set()
     if not ok and not failing:
@@ -281,6 +284,21 @@ def run(prop, tier, seed, replay=None):
                         ax_bad[n] = sorted(extra)
                 for n in missing:
                     ax_bad[n] = ["<not found by #print axioms>"]
+    # the hand-written property theorems (conventions, overload agreement)
+    prop_thms = common.theorems_in("GivaroModel/Props/%s.lean" % prop)
+    prop_ok = 0
+    if ok_p:
+        axs, missing, txt = common.print_axioms(props_mod, prop_thms)
+        for n in prop_thms:
+            a = axs.get(n)
+            if a is None:
+                ax_bad[n] = ["<not found by #print axioms>"]
+            elif a - common.ALLOWED_AXIOMS:
+                ax_bad[n] = sorted(a - common.ALLOWED_AXIOMS)
+            else:
+                prop_ok += 1
+    elif ok:
+        V.violation("props_build", {"obligation": "lake build %s" % props_mod, "theorems": prop_thms, "output": out_p[-3000:]}, no_failing_input=True)
     if forb:
         V.violation("audit_forbidden", {"obligation": "no sorry/admit/native_decide/... in the Lean library", "hits": forb[:50]}, no_failing_input=True)
     if ax_bad:
@@ -383,8 +401,9 @@ def run(prop, tier, seed, replay=None):
             distinct.add(l.split(" = ")[0])
     sample = [l for l in hout[:: max(1, len(hout) // 12)]][:12]
     V.coverage = {
-        "obligations": len(mine) + 2,
-        "discharged": len(mine) - len(failing_mine) + (0 if forb else 1) + (0 if ax_bad else 1),
+        "obligations": len(mine) + len(prop_thms) + 2,
+        "discharged": len(mine) - len(failing_mine) + prop_ok + (0 if forb else 1) + (0 if ax_bad else 1),
+        "property_theorems": prop_thms,
         "checker_cmd": "python3 translate/gen_integer.py && lake build GivaroModel.Generated.IntegerThms (one theorem per overload, regenerated from /repo) + #print axioms audit",
         "trusted_base": report.TRUSTED_BASE_COMMON + V.assumptions,
         "theorems": len(mine),
